@@ -39,7 +39,8 @@ type State struct {
 	defers    []*Deferred
 	lits      map[string]string // term -> string literal constant it is known to equal
 	litsOwned bool
-	splitIdx  int // number of split-at-call conditions already consumed on this path
+	splitIdx  int    // number of split-at-call conditions already consumed on this path
+	alloc     string // allocation frontier: every reference allocated so far by anybody is <= alloc
 }
 
 func (s *State) clone() *State {
@@ -56,6 +57,7 @@ func (s *State) clone() *State {
 	n.defers = s.defers
 	n.lits = s.lits
 	n.splitIdx = s.splitIdx
+	n.alloc = s.alloc
 	n.litsOwned = false
 	s.litsOwned = false
 	return n
@@ -265,14 +267,15 @@ type Obligation struct {
 
 // Verifier: global data
 type Verifier struct {
-	pkgs     map[string]*packages.Package // by package name (glob, server, ...)
-	fset     *token.FileSet
-	specs    *Specs
-	funcs    map[string]*ast.FuncDecl // key -> decl
-	funcPkg  map[string]*packages.Package
-	assumed  map[string]bool // assumption strings
-	repoRoot string
-	effects  map[string]*Effects
+	pkgs         map[string]*packages.Package // by package name (glob, server, ...)
+	fset         *token.FileSet
+	specs        *Specs
+	funcs        map[string]*ast.FuncDecl // key -> decl
+	funcPkg      map[string]*packages.Package
+	assumed      map[string]bool // assumption strings
+	repoRoot     string
+	effects      map[string]*Effects
+	fieldContent map[string]string // "pkg.Type.field" -> content heap key of its pointee / map
 }
 
 func funcKey(pkgName string, fd *ast.FuncDecl) string {
@@ -657,6 +660,19 @@ func (c *FnCtx) litFacts() []string {
 	return fs
 }
 
+// ptrKey: the heap holding the values pointers of this element type point to. Abstract containers get one heap per
+// Go type (so that effects on the server's hook trees do not disturb what is known about a collection's trees).
+func (c *FnCtx) ptrKey(elem types.Type) string {
+	if elem != nil {
+		if n, ok := types.Unalias(elem).(*types.Named); ok {
+			if _, isAbs := c.V.specs.Abstract[typeShortName(n)]; isAbs {
+				return "ptr." + typeShortName(n)
+			}
+		}
+	}
+	return "ptr." + sortName(c.sortOf(elem))
+}
+
 // ---- heap ----
 
 func structOf(t types.Type) (*types.Struct, *types.Named) {
@@ -969,6 +985,22 @@ func (c *FnCtx) merge(sts []*State) *State {
 	for _, s := range sts {
 		if s.splitIdx > out.splitIdx {
 			out.splitIdx = s.splitIdx
+		}
+	}
+	{
+		terms := make([]string, len(sts))
+		same := true
+		for i, s := range sts {
+			terms[i] = s.alloc
+			if terms[i] != terms[0] {
+				same = false
+			}
+		}
+		out.alloc = terms[0]
+		if !same {
+			f := c.fresh("alloc_m", SInt)
+			c.defineMerged(f, rests, terms)
+			out.alloc = f
 		}
 	}
 	// literal knowledge common to all
